@@ -310,8 +310,7 @@ def part_accept(s: Sem) -> None:  # noqa: C901
         if r.status == "sat":
             a, b = s.name_of(r.model, "f"), s.name_of(r.model, "t")
             ob.witness, ob.finding_key = {"from": a, "to": b}, f"delegate::{a}->{b}"
-            r1, r2 = s.native_check(a, b), s.native_check(a, b)
-            ob.replayed, ob.replay_detail = None, f"check_cast({a},{b},None) -> {r1}"
+            ob.replayed, ob.replay_detail = None, f"check_cast({a},{b},None) -> {s.native_check(a, b)}"
 
     # scalar / component validation: same acceptance, result type = target
     model_env = {"Scalar": eng.lookup_global(MREL, "Scalar"), "DataComponent": eng.lookup_global(MREL, "DataComponent")}
@@ -569,8 +568,15 @@ def main() -> None:  # noqa: C901
                 "macros of sql/init.sql (vc.sqlvc + vc.sqlcast: 3VL, NULLs, reals, character-vector strings, closed-form "
                 "calendar) and proved equal to the documented conversion by z3/cvc5, counter-models replayed in the real "
                 "DuckDB; plus a BOUNDED end-to-end tier (value pool x all pairs on the extracted API.run)",
-                min_obligations=60)
+                min_obligations=150 if not os.environ.get("VERIF_ONLY") else 1)
     core.boot(full=True)
+    trf, sqlf = "src/vtlengine/duckdb_transpiler/Transpiler/__init__.py", "src/vtlengine/duckdb_transpiler/sql/init.sql"
+    chk.under_contract(f"{trf}:SQLTranspiler.visit_ParamOp_cast", "contract")
+    chk.under_contract(f"{trf}:SQLTranspiler._cast_expr", "inlined")
+    for m in ("vtl_date_to_period", "vtl_period_to_date", "vtl_interval_to_date", "vtl_interval_to_period",
+              "vtl_period_normalize", "vtl_period_to_vtl"):
+        chk.under_contract(f"{sqlf}:{m}", "inlined")
+    chk.under_contract("src/vtlengine/API/__init__.py:run", "bounded")
     # ---- fork the workers first (no DuckDB connection exists in this process yet) -----------------------------------
     import _c09_bounded as B
     import _c09_values as V
@@ -601,9 +607,16 @@ def main() -> None:  # noqa: C901
 
     # ---- meanwhile: P1 / P2 in this process (pure Python, solver CLIs) ----------------------------------------------
     if not only:
+        from vc.pyvc import OutsideSubset, PathLimit
         sem = Sem(chk)
-        part_accept(sem)
-        part_rename(sem)
+        for part in (part_accept, part_rename):
+            try:
+                part(sem)
+            except (OutsideSubset, PathLimit, KeyError, FileNotFoundError) as e:
+                # code under contract moved / left the subset: undecided, never a violation
+                ob = chk.ob(f"src/vtlengine/{CREL}:Cast::{part.__name__}::not-analysable", f"src/vtlengine/{CREL}:Cast",
+                            "the functions under contract are present and inside the analysable subset")
+                ob.status, ob.detail = UNDECIDED, f"{type(e).__name__}: {e}"
         part_callsite(chk)
         chk.extra["functions_inlined"] = sorted(sem.eng.inlined)
         chk.extra["unspecified_pairs"] = [f"{a} -> {b}" for a, b in CD.UNSPECIFIED_PAIRS]
